@@ -148,7 +148,12 @@ def check_extremal_start(ctx: Ctx):
     from black_it.samplers.halton import HaltonSampler
 
     sub = "halton_extremal_start"
-    real_default_rng = seedable.default_rng
+    real_default_rng = getattr(seedable, "default_rng", None)
+    if real_default_rng is None:
+        # the seeding helper no longer binds numpy's default_rng under that name: nothing to substitute (the random-seed
+        # checks of the sampler sub-checks still apply)
+        ctx.notes.append("halton_extremal_start skipped: black_it.utils.seedable has no attribute default_rng")
+        return
     for mode in ("min", "max"):
         for path in ("constructor", "re-seeded"):
             case = {"mode": mode, "path": path, "d": 3}
